@@ -104,10 +104,17 @@ func SendMissingStz(lastSent int, s Sender, uaq *stanza.UnAckQueue) error {
 		return nil
 	}
 	// Re-send non acknowledged stanzas
-	for _, elt := range toResend {
+	for i, elt := range toResend {
 		eltStz := elt.(*stanza.UnAckedStz)
 		err := s.SendRaw(eltStz.Stz)
 		if err != nil {
+			// The connection is lost. What comes after the stanza that could not be written is still
+			// unacknowledged: it goes back to the queue, for the resumption of the session.
+			uaq.RWMutex.Lock()
+			for _, rest := range toResend[i+1:] {
+				uaq.Push(rest)
+			}
+			uaq.RWMutex.Unlock()
 			return err
 		}
 
